@@ -47,6 +47,8 @@ class Ref:
             for d in f["decls"]:
                 self._index(d, uri)
         self.cache = {}  # uri -> {key: text}   (one cache per template)
+        self.visits = {}  # probe -> times reached (reset by the caller)
+        self.nested = False
 
     def _index(self, d, uri):
         self.defs[d["name"]] = (d, uri)
@@ -66,6 +68,7 @@ class Ref:
         self.writes_after = 0  # writes since the last raise
         escaped = None
         self.base_escaped = False
+        self.kind = 0
         root = self.prog["root"]
         try:
             self.block(self.prog["files"][root]["body"], Env(None, root))
@@ -77,6 +80,7 @@ class Ref:
             "out": "".join(self.bufs[0]),
             "escaped": escaped,
             "base": self.base_escaped,
+            "kind": self.kind,
             "raised": list(self.raised),
             "inside": list(self.inside),
             "after": self.writes_after,
@@ -95,20 +99,21 @@ class Ref:
         self.bufs[-1].append(s)
 
     def probe(self, i, kind="stmt"):
-        if i in self.T:
-            self.pkinds.append(kind)
-            self.T.remove(i)
-            self.raised.append(i)
-            self.inside.append(list(self.path))
-            self.writes_after = 0
-            raise RBoom(i)
-        if -i in self.T:
-            self.pkinds.append(kind)
-            self.T.remove(-i)
-            self.raised.append(-i)
-            self.inside.append(list(self.path))
-            self.writes_after = 0
+        self.visits[i] = self.visits.get(i, 0) + 1
+        for v in self.T:
+            if abs(v) % 1000 == i:
+                break
+        else:
+            return
+        self.pkinds.append(kind)
+        self.T.remove(v)
+        self.raised.append(v)
+        self.inside.append(list(self.path))
+        self.writes_after = 0
+        if v < 0:
             raise RBase(i)
+        self.kind = v // 1000  # exception family: all of them are handled like Boom
+        raise RBoom(i)
 
     def push(self):
         self.bufs.append([])
@@ -133,6 +138,12 @@ class Ref:
             self.write("[%d.%d]" % (env.loops[-1][0], len(env.loops) - 1))
         elif k == "cb":
             self.callbody(env)
+        elif k == "rr":
+            # re-entrant fault-free render of the same Template (same cache); the inner render does not recurse
+            if not self.nested:
+                sub = Ref.__new__(Ref)
+                sub.prog, sub.ieh, sub.defs, sub.cache, sub.visits, sub.nested = self.prog, self.ieh, self.defs, self.cache, self.visits, True
+                self.write(sub.render([])["out"])
         elif k == "ob":
             self.write("[nocaller]")  # A3: a def called without content has no caller
         elif k == "py":
